@@ -2,7 +2,7 @@
 from .. import gen
 from . import common
 
-SPEC_THEOREM = 'Props/C17: writer (pre) = pre ++ writer []; offsets are positions in the same buffer; errors append nothing'
+SPEC_THEOREM = 'Props/C17: writer (pre) = pre ++ writer []; offsets are positions in the same buffer; editors as state functions over the caller buffer (buffer as left, outcome): prefix kept in every outcome on any input (C17_editors_leave_prefix_on_any_input), an error return leaves the buffer as it was (C17_errors_append_nothing; build_array/build_object excepted: C17_build_array_object_error_appends)'
 TRUSTED = ['Coq 8.16.1 kernel', 'translator', 'extraction + OCaml driver', 'Rust harness', 'buffer-explicit models Codec.v (Encoder), Builder.v, SelWalk.v (writers), EditWalk.v / EditWalk2.v / SetWalk.v (editors), ComparableWalk.v']
 ASSUMPTIONS = ['inputs are canonical encodings of well-formed values']
 RULE = 'every buffer-writing function (incl. size-preserving updates of an existing member) called with the empty buffer and with prefixes (1 byte, a previous result, 4 KiB); the prefixed result must equal prefix ++ result-on-empty and offsets must be shifted by the prefix length; non-trivial = something appended'
